@@ -37,6 +37,7 @@ fn is_cacheable(t: FileType) -> bool {
     matches!(t, FileType::Snapshot | FileType::Index)
 }
 
+/// regular files `path:size`; directories at depth >= 3 (below `<type>/<xx>/`: only plants create those) as `path/`
 fn layout(root: &Path) -> String {
     fn walk(dir: &Path, rel: &str, out: &mut Vec<String>) {
         let Ok(rd) = std::fs::read_dir(dir) else { return };
@@ -45,6 +46,9 @@ fn layout(root: &Path) -> String {
             let r = if rel.is_empty() { name.clone() } else { format!("{rel}/{name}") };
             let Ok(ft) = e.file_type() else { continue };
             if ft.is_dir() {
+                if r.split('/').count() >= 3 {
+                    out.push(format!("{r}/"));
+                }
                 walk(&e.path(), &r, out);
             } else if ft.is_file() {
                 out.push(format!("{r}:{}", e.metadata().map(|m| m.len()).unwrap_or(0)));
@@ -167,6 +171,42 @@ fn hist(steps: &str) -> String {
                 let ti = ft_idx(t) as usize;
                 let use_cache = *h == "c";
                 let f2 = f.clone();
+                // per-file soundness of the cache entry BEFORE a read through the cached handle (theorems
+                // entry_coherent_read_equiv / prefix_entry_ranged_read_equiv / dir_entry_*): nothing, a directory or another
+                // non-file object at the entry path, the repository's bytes, or — for a non-empty ranged read — a prefix of
+                // them (a truncated entry): then the cached result must equal the uncached one, listed or not.
+                let mut sound = false;
+                if use_cache && matches!(*op, "r" | "p") {
+                    let Some(id) = f.get(3).and_then(|s| id_of(s)) else { return "bad-op".into() };
+                    let cache_on = is_cacheable(t) || (*op == "p" && f.get(4) == Some(&"1"));
+                    let hex_id = id.to_hex();
+                    let ep = croot.join(t.dirname()).join(&hex_id[0..2]).join(hex_id.as_str());
+                    let stored = be.store().get(&(ft_idx(t), id)).cloned();
+                    sound = !cache_on
+                        || match std::fs::symlink_metadata(&ep) {
+                            Err(_) => true,
+                            Ok(m) if m.is_file() => {
+                                let b = std::fs::read(&ep).unwrap_or_default();
+                                match &stored {
+                                    Some(d) if *op == "r" => d[..] == b[..],
+                                    Some(d) => d.starts_with(&b),
+                                    None => false,
+                                }
+                            }
+                            Ok(_) => true,
+                        };
+                }
+                if use_cache && *op == "w" {
+                    // a directory at the TEMP path blocks the cache write: an overwrite with other bytes (outside the
+                    // statement: ids are content hashes) then leaves the old entry behind — not compared until the next listing
+                    if let (Some(id), Some(data)) = (f.get(3).and_then(|s| id_of(s)), f.get(5).and_then(|s| data_of(s))) {
+                        let hex_id = id.to_hex();
+                        let tp = croot.join(t.dirname()).join(&hex_id[0..2]).join(format!("{}-tmp-", hex_id.as_str()));
+                        if tp.is_dir() && be.store().get(&(ft_idx(t), id)).is_some_and(|d| d[..] != data[..]) {
+                            dirty[ti] = true;
+                        }
+                    }
+                }
                 let handle: Arc<dyn WriteBackend> = if use_cache { cached.clone() } else { Arc::new(be.clone()) };
                 let res = std::panic::catch_unwind(std::panic::AssertUnwindSafe(|| do_op(&*handle, &f2)));
                 let obs = match res {
@@ -211,7 +251,7 @@ fn hist(steps: &str) -> String {
                     }
                     // (a zero-length range is answered by a cache file at any offset; degenerate, not compared)
                     let degenerate = *op == "p" && f.last() == Some(&"0");
-                    if !dirty[ti] && obs != want && !degenerate {
+                    if (!dirty[ti] || sound) && obs != want && !degenerate {
                         fail = fail.or(Some(format!("oracle-fail:cached-{op}-differs-from-uncached:{obs}-vs-{want}").chars().take(90).collect()));
                     }
                     if obs == "panic" {
@@ -287,6 +327,12 @@ pub fn repo_level(seed: u64) -> String {
                             _ = std::fs::write(&f, d);
                         }
                         2 => _ = std::fs::remove_file(&f),
+                        3 => {
+                            // a directory in place of the entry (never cleaned up: not a regular file)
+                            if f.is_file() && std::fs::remove_file(&f).is_ok() {
+                                _ = std::fs::create_dir(&f);
+                            }
+                        }
                         _ => {}
                     }
                 }
@@ -301,6 +347,9 @@ pub fn repo_level(seed: u64) -> String {
                     if rng.chance(1, 2) {
                         _ = std::fs::write(root.join(t).join(hex::encode(rng.bytes(32))), b"misplaced");
                     }
+                    // a directory at the entry path of an id the repository does not (yet) have
+                    let id2 = hex::encode(rng.bytes(32));
+                    _ = std::fs::create_dir_all(root.join(t).join(&id2[..2]).join(&id2));
                 }
             }
         }
@@ -461,6 +510,12 @@ pub fn generate(thorough: bool, rng: &mut Rng, ops: &mut Vec<String>, stats: &mu
             } else {
                 (ut, uid, ulen)
             };
+            if rng.chance(1, 6) {
+                // a directory where the entry of that file belongs (stays there for the rest of the history)
+                stats.hit("alt.dir-at-entry");
+                let dir = ["config", "index", "keys", "snapshots", "data"][rt as usize];
+                steps.push(format!("m,{dir}/{}/{rid}", &rid[..2]));
+            }
             match rng.below(5) {
                 0 | 1 => {
                     stats.hit("alt.c-read-full");
@@ -530,6 +585,16 @@ pub fn generate(thorough: bool, rng: &mut Rng, ops: &mut Vec<String>, stats: &mu
                             len += 1;
                         }
                         oid
+                    } else if !pool.is_empty() && rng.chance(1, 6) {
+                        // an id seen before (read / removed / planted, e.g. a directory at its entry path) but possibly never written
+                        stats.hit("op.write.pool-id");
+                        let pid = rng.pick(&pool).clone();
+                        if let Some((_, _, olen)) = written.iter().find(|(a, b, _)| *a == t && *b == pid) {
+                            if len == *olen {
+                                len += 1;
+                            }
+                        }
+                        pid
                     } else {
                         fresh(rng, &mut pool)
                     };
@@ -580,7 +645,37 @@ pub fn generate(thorough: bool, rng: &mut Rng, ops: &mut Vec<String>, stats: &mu
                     let (t2, id, len) = known(rng, &written, &mut pool, t);
                     let dir = dirs[t2 as usize];
                     let proper = format!("{dir}/{}/{id}", &id[..2]);
-                    match rng.below(8) {
+                    match rng.below(13) {
+                        8 | 9 => {
+                            // a DIRECTORY at the proper entry path of a known id (written, removed, or only read so far)
+                            stats.hit("plant.dir-at-entry");
+                            steps.push(format!("m,{proper}"));
+                        }
+                        10 => {
+                            // ... of an id nothing was done with yet (it joins the pool: later written / read / removed)
+                            stats.hit("plant.dir-at-fresh-entry");
+                            let id = fresh(rng, &mut pool);
+                            steps.push(format!("m,{dir}/{}/{id}", &id[..2]));
+                        }
+                        11 => {
+                            // the entry cut to a PREFIX of itself (what an interrupted copy / a full disk leaves)
+                            stats.hit("plant.cut-to-prefix");
+                            steps.push(format!("t,{proper},{}", rng.below(len as u64 + 1)));
+                        }
+                        12 => match rng.below(3) {
+                            0 => {
+                                stats.hit("plant.dir-at-tmp-path");
+                                steps.push(format!("m,{proper}-tmp-"));
+                            }
+                            1 => {
+                                stats.hit("plant.dir-misplaced");
+                                steps.push(format!("m,{dir}/{id}"));
+                            }
+                            _ => {
+                                stats.hit("plant.dir-below-entry");
+                                steps.push(format!("m,{proper}/sub"));
+                            }
+                        },
                         0 => {
                             stats.hit("plant.truncated");
                             steps.push(format!("s,{proper},g{}.{}", rng.below(1 << 30), len / 2));
